@@ -159,7 +159,8 @@ theorem failed_is_sticky (r : Regs) (inp out : Array UInt8) (outPos budget flags
 theorem call_always_terminates (r : Regs) (inp out : Array UInt8) (outPos budget flags : Nat) :
     let st := (decompress r inp out outPos budget flags).status
     st = stBadParam ∨ st = stAdler32Mismatch ∨ st = stFailed ∨ st = stDone ∨ st = stNeedsMoreInput ∨
-    st = stHasMoreOutput ∨ st = stFailedCannotMakeProgress ∨ st = stBlockBoundary := by
+    st = stHasMoreOutput ∨ st = stFailedCannotMakeProgress ∨
+    (st = stBlockBoundary ∧ hasFlag flags fStopOnBlockBoundary = true) := by
   intro st
   by_cases hg : badGeometry flags out.size outPos = true
   · left; show (decompress r inp out outPos budget flags).status = _
@@ -189,7 +190,7 @@ theorem call_always_terminates (r : Regs) (inp out : Array UInt8) (outPos budget
           · right; right; right; right; right; right; left; rw [h1.1, h2]
         · right; right; right; left; exact h1.1
         · right; right; left; exact h1.1
-        · right; right; right; right; right; right; right; exact h1
+        · right; right; right; right; right; right; right; exact ⟨h1.1, h1.2⟩
     · right; left; rw [hst]; exact h.1
 
 example : badGeometry 0 3 0 = true := by decide
